@@ -61,14 +61,31 @@ Definition decode_iri (pid nid : N) (st : dstate) : res (dstate * str) :=
   Ok (set_tables st n' p' (ds_datatypes st),
       (match prefix with Some s => s | None => [] end) ++ name).
 
-Definition decode_literal (lex : str) (k : wlitkind) (st : dstate) : res (dstate * term) :=
+(* the term an adapter's literal(lex, language, datatype) returns.  Generic: Literal(lex, langtag, datatype), as given.
+   Rdflib: rdflib.Literal(lex, lang=language, datatype=datatype, normalize=False) -- an empty tag is no tag; a tag AND a datatype:
+   TypeError; a tag that is not well-formed: ValueError; the lexical form of an xsd:token / xsd:normalizedString literal is
+   REWRITTEN (whiteSpace facet; normalize=False does not switch that off) *)
+Definition mk_literal (ig : integ) (lex : str) (lang dt : option str) : res term :=
+  match ig with
+  | Generic => Ok (TLit lex lang dt)
+  | Rdflib =>
+    let lang' := match lang with Some [] => None | _ => lang end in
+    match lang', dt with
+    | Some _, Some _ => Err TypeErr
+    | Some t, None => if valid_langtag t then Ok (TLit lex lang' None) else Err ValueErr
+    | None, _ => Ok (TLit (rdflib_lex dt lex) None dt)
+    end
+  end.
+
+Definition decode_literal (ig : integ) (lex : str) (k : wlitkind) (st : dstate) : res (dstate * term) :=
   match k with
-  | LkLang t => if is_nil t then Ok (st, TLit lex None None) else Ok (st, TLit lex (Some t) None)
-  | LkNone => Ok (st, TLit lex None None)
+  | LkLang t => do l <- mk_literal ig lex (if is_nil t then None else Some t) None; Ok (st, l)
+  | LkNone => do l <- mk_literal ig lex None None; Ok (st, l)
   | LkDt id =>
     if nlen (d_data (ds_datatypes st)) =? 0 then Err Conformance else
     do (d', dt) <- lift IndexErr (decode_datatype_term_index id (ds_datatypes st));
-    Ok (set_tables st (ds_names st) (ds_prefixes st) d', TLit lex None (Some dt))
+    do l <- mk_literal ig lex None (Some dt);
+    Ok (set_tables st (ds_names st) (ds_prefixes st) d', l)
   end.
 
 (* decode_term; quoted triples need every slot and (rdflib) an adapter that implements them *)
@@ -76,7 +93,7 @@ Fixpoint decode_term (ig : integ) (w : wterm) (st : dstate) : res (dstate * term
   match w with
   | WIri p n => do (st', iri) <- decode_iri p n st; Ok (st', TIri iri)
   | WBnode l => Ok (st, TBnode l)
-  | WLit lex k => decode_literal lex k st
+  | WLit lex k => decode_literal ig lex k st
   | WDefault => Ok (st, TDefault)
   | WTriple s p o =>
     (* slot by slot, as decode_quoted_triple does: an absent slot is noticed when its turn comes
